@@ -95,6 +95,9 @@ RunEnd ==
   /\ viol' = viol \cup
        (IF "goal" \notin DOMAIN scen \/ ~Ev.failed THEN {}
         ELSE IF last.c = "none" THEN {"minimization_lost_failure"}
+        \* the minimizer was still at work when (more than half of) its time budget was used up: what it ended with need not be the boundary
+        \* (a loaded machine; reported as a lost binding, never alarmed)
+        ELSE IF Ev.shrinkcut THEN {"minimizer_out_of_time"}
         ELSE IF scen.goal = "int" THEN If(last.c # "int" \/ (last.c = "int" /\ last.v.l # ExpectedInt), "not_minimal_integer")
         ELSE IF scen.goal = "len" THEN
                If((last.c = "coll" /\ last.len # scen.k) \/ (last.c = "str" /\ last.runes # scen.k) \/ last.c \notin {"coll", "str"}, "not_minimal_length")
